@@ -260,8 +260,18 @@ func c06Retain(e *Env) {
 	lastSrc := ""
 	lastPooled := false
 	viewMsgs := 0
+	// sometimes a long-lived process: hundreds of messages follow the retained ones (whatever the
+	// library recycles in rotation - free lists, slabs, rings - comes round again)
+	long := t.Chance(1, 120)
+	if long {
+		e.maxStep = 700
+		e.Probe("hundreds-of-later-messages")
+	}
 	for k := 0; e.Step(); k++ {
-		if k >= 4 && t.Chance(1, 6) {
+		if long && k >= 600 {
+			break
+		}
+		if !long && k >= 4 && t.Chance(1, 6) {
 			break
 		}
 		fill := byte(37*k + 11)
@@ -307,6 +317,9 @@ func c06Retain(e *Env) {
 		}
 		lastSrc = name
 		e.Quiesce()
+		if long && k >= 8 && k%50 != 0 {
+			continue // (the long run looks at everything it holds every fifty messages)
+		}
 		if e.Failed() || !check(fmt.Sprintf("after message %d was read from %s", k, name)) {
 			break
 		}
